@@ -67,13 +67,48 @@ def union_stream(seed, n, op='from_data', oracles=('c11',)):
     return out
 
 
-KINDS = [None, True, False, 0, 1, 5, -3, 2.5, 1.0, float('inf'), complex(1, 2), '', 'a', 'abc', '12', b'', b'ab', bytearray(b'xy'),
+KINDS = [None, True, False, 0, 1, 5, -3, 2.5, 1.0, 2.0, float('inf'), complex(1, 2), complex(2, 0), '', 'a', 'abc', '12', b'', b'ab', bytearray(b'xy'),
          [], [1], ['a', 'b'], (), (1, 2), {}, {'a': 1}, {1: 2}]
+MATRIX_ENUMS = [['EI', [{'i': '1'}, {'i': '2'}, {'i': '3'}]], ['EB', [True, False]], ['ES', ['a', 'abc']], ['EM', [{'i': '0'}, 'a', None]]]
 TARGETS = ['NoneType', 'bool', 'int', 'float', 'complex', 'str', 'bytes', 'bytearray', 'Decimal', 'Fraction', 'datetime', 'date', 'time',
            'Path:PurePosixPath', {'pattern': None}, {'seq': ['list', 'int']}, {'seq': ['list', 'str']}, {'seq': ['tuple', 'any']},
            {'seq': ['set', 'int']}, {'seq': ['frozenset', 'str']}, {'seq': ['deque', 'any']}, {'tuple': ['int', 'str']}, {'tuple': []},
            {'map': ['dict', ['str', 'int']]}, {'map': ['Mapping', []]}, {'map': ['Counter', ['str']]},
            {'lit': [{'i': '1'}, 'a', None]}, 'any']
+
+
+def twin_stream(seed, n, op='from_data'):
+    """history twins: the same union with its members in two different orders, inside the same wrapper (tuple / struct
+    literal, builtin generic alias, fixed tuple, mapping), converted one after the other in the SAME process: a converter
+    cache that treats equal-comparing type expressions as the same type shows up as a wrong left-most member"""
+    g = random.Random(seed)
+    out = []
+    for i in range(n):
+        ge = gen.Gen(g.randrange(1 << 62), max_depth=1, classes=False)
+        r = ge.r
+        members = list(r.choice([['int', 'float'], ['int', 'float', 'complex'], ['bool', 'int'], ['str', 'Fraction'], ['int', 'bool', 'float'],
+                                 ['str', 'date'], ['float', 'complex']]))
+        perm = list(members)
+        while perm == members:
+            r.shuffle(perm)
+        wrap = r.choice(['tuplit', 'struct', 'list585', 'tuple', 'dictval', 'nested'])
+        def W(ms):
+            u = {'union': list(ms)}
+            return {'tuplit': lambda: {'tuplit': [u, 'str']}, 'struct': lambda: {'struct': [['a', u], ['b', 'str']]},
+                    'list585': lambda: {'seq': ['list', u]}, 'tuple': lambda: {'tuple': [u, 'str']},
+                    'dictval': lambda: {'map': ['dict', ['str', u]]}, 'nested': lambda: {'tuplit': [{'tuplit': [u]}, 'int']}}[wrap]()
+        leaf = ge.valid(r.choice(members), 2)
+        if isinstance(leaf, (list, dict)):
+            leaf = 1
+        val = {'tuplit': [leaf, 's'], 'struct': {'a': leaf, 'b': 's'}, 'list585': [leaf, 1, True], 'tuple': [leaf, 's'],
+               'dictval': {'k': leaf, 'j': 1}, 'nested': [[leaf], 3]}[wrap]
+        try:
+            wire = gen.ENC.enc(val)
+        except Exception:
+            continue
+        for k, ms in enumerate((members, perm, members)):
+            out.append({'id': f'tw{seed}:{i}:{k}', 'decl': ge.decl, 'op': op, 'ty': W(ms), 'val': wire, 'spell': 1, 'stream': 'twins'})
+    return out
 
 
 def matrix_stream(seed):
@@ -82,8 +117,9 @@ def matrix_stream(seed):
     n = 0
     P2 = {'name': 'P2', 'fields': [{'name': 'a', 'ty': 'str'}, {'name': 'b', 'ty': 'str', 'default': {'value': 'x'}}],
           'opts': {'in_format': ['tuple', 'struct']}, 'hook': None}
-    for ti, tgt in enumerate(TARGETS + [{'cls': ['P2', []]}]):
-        decl = {'enums': [], 'subs': [], 'classes': [P2] if isinstance(tgt, dict) and 'cls' in tgt else []}
+    for ti, tgt in enumerate(TARGETS + [{'cls': ['P2', []]}] + [{'enum': e[0]} for e in MATRIX_ENUMS]):
+        decl = {'enums': [e for e in MATRIX_ENUMS if isinstance(tgt, dict) and tgt.get('enum') == e[0]], 'subs': [],
+                'classes': [P2] if isinstance(tgt, dict) and 'cls' in tgt else []}
         hashable_tgt = tgt in ('NoneType', 'bool', 'int', 'float', 'complex', 'str', 'bytes', 'Decimal', 'Fraction', 'date') or \
             (isinstance(tgt, dict) and ('lit' in tgt or tgt.get('seq', [''])[0] == 'frozenset' or 'tuple' in tgt))
         for vi, v in enumerate(KINDS):
@@ -269,7 +305,8 @@ def valid_stream(seed, n, op):
 
 PLUGS = {
     'C01': dict(streams=lambda seed, tier: conv_stream(seed, sizes(tier, 1500, 30000), 'from_data', []) +
-                conv_stream(seed + 1, sizes(tier, 300, 3000), 'build', []),
+                conv_stream(seed + 1, sizes(tier, 300, 3000), 'build', []) + twin_stream(seed, sizes(tier, 150, 2000)) +
+                gen.scenarios_tuplelayout(seed, sizes(tier, 300, 4000)),
                 project=proj_verdict_value, oracles=[], disagreement_is_failure=True),
     'C02': dict(streams=lambda seed, tier: matrix_stream(seed) + conv_stream(seed, sizes(tier, 500, 10000), 'from_data', []),
                 project=proj_verdict_value, oracles=[], disagreement_is_failure=True, exhaustive_part='matrix'),
@@ -301,7 +338,7 @@ PLUGS = {
                 conv_stream(seed + 1, sizes(tier, 400, 10000), 'try_collect', []) +
                 conv_stream(seed + 2, sizes(tier, 400, 10000), 'roundtrip', []),
                 project=proj_verdict_value, oracles=['c09'], disagreement_is_failure=False),
-    'C11': dict(streams=lambda seed, tier: union_stream(seed, sizes(tier, 1200, 20000)) +
+    'C11': dict(streams=lambda seed, tier: union_stream(seed, sizes(tier, 1200, 20000)) + twin_stream(seed, sizes(tier, 100, 1500)) +
                 union_stream(seed + 7, sizes(tier, 300, 5000), op='roundtrip'),
                 project=proj_verdict_value, oracles=['c11'], disagreement_is_failure=True),
     'C12': dict(streams=lambda seed, tier: gen.scenarios_tagged(seed, sizes(tier, 1500, 25000)),
@@ -319,6 +356,9 @@ PLUGS = {
                 gen.scenarios_process(seed, sizes(tier, 300, 4000), generic_share=0.2),
                 project=proj_full, oracles=['c16'], disagreement_is_failure=True, exhaustive_part='hashcube'),
     'C17': dict(streams=lambda seed, tier: gen.scenarios_process(seed, sizes(tier, 1500, 25000), generic_share=0.7),
+                project=proj_full, oracles=[], disagreement_is_failure=True),
+    'C18': dict(streams=lambda seed, tier: gen.scenarios_handlers(seed, sizes(tier, 2500, 30000)) +
+                [s for s in gen.scenarios_process(seed, sizes(tier, 600, 6000), generic_share=0.0) if 'custom' in json.dumps(s['decls'])],
                 project=proj_full, oracles=[], disagreement_is_failure=True),
     'C20': dict(streams=lambda seed, tier: rename_stream(seed, tier), project=proj_full, oracles=[], disagreement_is_failure=True,
                 post_oracle=rename_oracle),
